@@ -54,7 +54,7 @@ def shards(tier, seed):
     for i in range(12):
         out.append({"kind": "small", "seed": seed, "shard": i, "n": 60 if q else 3000})
     for i in range(4):
-        out.append({"kind": "big", "seed": seed, "shard": 12 + i, "n": 2 if q else 90})
+        out.append({"kind": "big", "seed": seed, "shard": 12 + i, "n": 5 if q else 90})
     return out
 
 
@@ -98,8 +98,8 @@ def to_dataset(pts, layout, seed):
 
 
 def gen_spec(rng, big=False):
-    cls = rng.choice(CLASSES) if not big else rng.choice(["random", "gaps", "threshold"])
-    r = rng.choice([0.5, 5.0, 5.0, 50.0, 300.0, 1500.0, 2500.0] if rng.random() < 0.25
+    cls = rng.choice(CLASSES) if not big else rng.choice(["random", "gaps", "threshold", "threshold", "threshold"])
+    r = rng.choice([0.5, 5.0, 5.0, 50.0, 300.0, 1500.0, 2500.0] if rng.random() < 0.25 and not big
                    else [0.5, 5.0, 5.0, 50.0, 300.0])
     mi_s = rng.choice([1, 60, 300, 3600])
     tick = M.SEC
